@@ -129,6 +129,19 @@ theorem lsp_events_refine_fresh (hF : Frame ck) (hL : LocalW ck) (hK : Kinds ck)
       e ∈ getErrors (fresh ck (applyEvents ck.root evs S0)) k := by
   rw [(incremental_refines_fresh ck hF hL hK S0 _).1 k e, lsp_glue_file_view ck S0 evs h]
 
+/-- **`incremental_refines_fresh_epochs`**: the refinement with the hypothesis about name identity
+made explicit.  Signatures are built at the epoch of the operation that (re-)parses a module and are
+kept across later operations and string-GC rounds; if names are stable (`NamesStable`), the server
+after any history — operation `t` running with the checker of epoch `t + 1` — holds the diagnostics
+of a server freshly started at **any** later epoch `T` on the current files. -/
+theorem incremental_refines_fresh_epochs (e : EChecker Mod Content Sig Err) (hN : NamesStable e)
+    (hF : Frame (e.at 0)) (hL : LocalW (e.at 0)) (hK : Kinds (e.at 0))
+    (S0 : Sources Mod Content) (ops : List (Op Mod Content)) (T : Nat) (k : Mod) (err : Err) :
+    err ∈ getErrors (runE e 1 ops (fresh (e.at 0) S0)) k ↔
+      err ∈ getErrors (fresh (e.at T) (applyOps e.base.root ops S0)) k := by
+  rw [runE_eq_run e hN, at_eq_of_stable e hN T 0]
+  exact (incremental_refines_fresh (e.at 0) hF hL hK S0 ops).1 k err
+
 end Theorems
 
 /-! ## Regression witnesses of the fixed findings, and non-vacuity -/
@@ -229,6 +242,14 @@ example :
         getErrors (fresh ckForeign (applyOps 99 ops S0)) k) ∧
       getErrors (run ckForeign (ops.take 3) (fresh ckForeign S0)) 1 = [1] := by
   decide
+
+/-- `NamesStable` is needed: if a re-parse at a later epoch gives a module's names another identity
+(here: the signature of module 1 changes with the epoch), re-saving module 1 makes its importer 2
+report an error a fresh server does not report — the shape of seeded fault C10e. -/
+def eUnstable : EChecker Nat (List Nat) Nat Nat := { base := ckRename, sigAt := fun t m _ => m + t }
+
+example : 1 ∈ getErrors (runE eUnstable 1 [.update [(1, [])]] (fresh (eUnstable.at 0) [(1, []), (2, [1])])) 2
+    ∧ 1 ∉ getErrors (fresh (eUnstable.at 0) [(1, []), (2, [1])]) 2 := by decide
 
 /-- LSP glue: deleting a file the server has never heard of (and one it knows) after a rename. -/
 example : applyEvents 99 [.didRename [(some 1, some 3), (some 2, none)], .didDelete [none, some 2],
